@@ -374,6 +374,9 @@ pub fn run(b: &mut Built, op: &Op, pfx: &str, env: Envelope) -> StepOut {
                 1 => who.val1.clone(), // duplicate
                 2 => who.n1.clone(),   // wrong prefix
                 4 => format!("{}\u{e9}{}", &who.vp[..who.vp.len() - 1], &who.val3[who.vp.len() + 1..]),
+                // checksum-valid address of a longer prefix that contains the bech32 separator: `<validator prefix>1x` (bech32 splits at the LAST '1')
+                5 => crate::addr::addr(&format!("{}1x", who.vp), 9, 20),
+                6 => crate::addr::addr(&format!("{}1", who.vp), 9, 20),
                 _ => "garbage".to_string(),
             };
             b.chain.execute(&s, &[], ExecuteMsg::AddValidator { new_validator: v })
@@ -610,6 +613,27 @@ pub fn channel_orphan(b: &Built, op: &Op, s: &StepOut) -> bool {
     false
 }
 
+/// Known finding F-C07-channel-change, second manifestation: packet sequences are per channel, the tracking table is keyed by
+/// the sequence alone. A transfer submitted after a channel change can be given the sequence of a transfer of the previous
+/// channel that is still tracked (in flight or refundable); its record then replaces the older one.
+pub fn seq_collision(b: &Built, s: &StepOut) -> Option<u64> {
+    if let Tx::Ok { msgs, .. } = &s.tx {
+        for m in transfers(msgs) {
+            if let Emitted::Transfer { seq: Some(q), channel, .. } = m {
+                if b.chain.w.packets.iter().any(|p| p.seq == *q && p.channel != *channel && p.sender == b.chain.who.contract && matches!(p.state, PState::Sent | PState::Refunded)) {
+                    return Some(*q);
+                }
+            }
+        }
+    }
+    None
+}
+
+/// The history cannot be judged against the ledgers any further (a known finding was hit and reported under its own label).
+pub fn history_broken(b: &Built, op: &Op, s: &StepOut) -> bool {
+    channel_orphan(b, op, s) || seq_collision(b, s).is_some()
+}
+
 /// Invariant after the step (proved) + frame conditions common to all operations.
 pub fn post_inv(cx: &Ctx, b: &Built, s: &StepOut) {
     if let Some(op) = s.op.as_ref() {
@@ -617,6 +641,24 @@ pub fn post_inv(cx: &Ctx, b: &Built, s: &StepOut) {
             // reported once by `post_op` under its own label; the ledger invariants necessarily fail after it
             return;
         }
+    }
+    if let Some(q) = seq_collision(b, s) {
+        // what the unchanged code does here is defined and checked: the new transfer is recorded exactly (sequence, amount,
+        // denom, receiver, Sent) -- the older record of the same sequence is lost, which is the known finding
+        if let Tx::Ok { msgs, .. } = &s.tx {
+            check_new_packets_tracked(cx, s, msgs);
+            for m in transfers(msgs) {
+                if let Emitted::Transfer { seq: Some(sq), amount, .. } = m {
+                    if let Some((_, a, _, st)) = s.post.packets.get(sq) {
+                        prove(cx.f, "C02:the amount tracked for a newly submitted transfer is exactly the amount that left the contract", t::eq(a, amount));
+                        claim(cx.f, "C02:a newly submitted transfer is tracked as in flight, not as refundable", *st == PacketLifecycleStatus::Sent);
+                        prove(cx.f, "C01:the amount tracked for a newly submitted transfer is exactly the amount that left the contract", t::eq(a, amount));
+                    }
+                }
+            }
+        }
+        claim(cx.f, "C07:a transfer submitted after a channel change never takes over the record of a still-tracked transfer of the previous channel", q == u64::MAX);
+        return;
     }
     if !s.tx.is_ok() {
         // rolled back: storage must be byte-identical (the world model restores it; this checks the
